@@ -17,9 +17,10 @@ namespace etl::detail {
 
 /// \brief The conversion shared by strtol, strtoll, strtoul, strtoull and the
 /// sto* functions. Splits the subject sequence of the C standard (white space,
-/// optional sign, optional 0x/0X prefix, digits), lets strings::to_integer
+/// optional sign, optional 0x/0X or 0 prefix, digits), lets strings::to_integer
 /// convert the digits as a magnitude and applies the sign in the result type.
 ///
+/// - base 0: hexadecimal after 0x/0X, octal after a leading 0, decimal otherwise
 /// - base 16: an optional 0x/0X in front of the digits is skipped
 /// - the unsigned functions negate the value of a sequence with a minus sign
 /// - without any digits, or with a value outside the result type, end is
@@ -38,6 +39,10 @@ template <integral Int>
         .allow_plus_sign = false,
     };
 
+    if (base < 0 or base == 1 or base > 36) {
+        return result_t{.end = str.data(), .error = to_integer_error::invalid_input};
+    }
+
     auto const length = str.size();
     auto pos          = size_t{0};
     while (pos != length and etl::isspace(static_cast<int>(str[pos])) != 0) {
@@ -53,8 +58,11 @@ template <integral Int>
     // 0x or 0X counts as prefix only in front of a hexadecimal digit
     auto const hasHexPrefix = length - pos > 2 and str[pos] == '0' and (str[pos + 1] == 'x' or str[pos + 1] == 'X')
                           and etl::isxdigit(static_cast<int>(str[pos + 2])) != 0;
-    if (base == 16 and hasHexPrefix) {
+    if ((base == 0 or base == 16) and hasHexPrefix) {
+        base = 16;
         pos += 2;
+    } else if (base == 0) {
+        base = (pos != length and str[pos] == '0') ? 8 : 10;
     }
 
     auto const digits    = str.substr(pos);
